@@ -30,6 +30,14 @@ func fnDisplay(fn *ssa.Function) string {
 	return shortName(fn)
 }
 
+// isNewHelper: a top-level module function that the audited tree does not have.
+func isNewHelper(f *ssa.Function) bool {
+	return f != nil && auditedFnNames != nil && isModFunc(f) && f.Parent() == nil && f.Synthetic == "" && len(f.Blocks) > 0 &&
+		!auditedFnNames[shortName(f)]
+}
+
+var guardInlineDepth int
+
 func guardSitesOf(p *Prog, fn *ssa.Function) []guardSite {
 	var out []guardSite
 	for _, b := range fn.Blocks {
@@ -37,6 +45,49 @@ func guardSitesOf(p *Prog, fn *ssa.Function) []guardSite {
 			name := ""
 			switch x := in.(type) {
 			case ssa.CallInstruction:
+				// a helper the audited tree does not have is looked through: what it does counts as
+				// done here, under the conditions of this call and its own (arguments for parameters)
+				if h := x.Common().StaticCallee(); isNewHelper(h) && guardInlineDepth < 2 && len(h.Params) == len(x.Common().Args) && len(h.AnonFuncs) == 0 {
+					if _, isGo := in.(*ssa.Go); !isGo {
+						outer := guardSet(in)
+						saved := map[*ssa.Parameter]string{}
+						for i, pa := range h.Params {
+							if old, had := descParamSubst[pa]; had {
+								saved[pa] = old
+							}
+							descParamSubst[pa] = descValue(x.Common().Args[i], 1)
+						}
+						guardInlineDepth++
+						inner := guardSitesOf(p, h)
+						guardInlineDepth--
+						for _, pa := range h.Params {
+							if old, had := saved[pa]; had {
+								descParamSubst[pa] = old
+							} else {
+								delete(descParamSubst, pa)
+							}
+						}
+						for _, gs := range inner {
+							a, _, _ := strings.Cut(gs.Sig, " ## ")
+							set := map[string]bool{}
+							for _, c := range outer {
+								set[c] = true
+							}
+							for _, c := range strings.Split(a, " && ") {
+								if c != "" {
+									set[c] = true
+								}
+							}
+							var all []string
+							for c := range set {
+								all = append(all, c)
+							}
+							sort.Strings(all)
+							out = append(out, guardSite{fn, gs.Name, in, strings.Join(all, " && ") + " ## " + orGuardSet(in)})
+						}
+						continue
+					}
+				}
 				cs := &callSite{In: x, Fn: fn, Static: x.Common().StaticCallee()}
 				if bi, ok := x.Common().Value.(*ssa.Builtin); ok {
 					if bi.Name() == "append" || bi.Name() == "delete" {
@@ -159,7 +210,7 @@ func fnDisplayIndex(p *Prog) map[string]*ssa.Function {
 func markSites(p *Prog, pkg string, fields []string) []guardSite {
 	var out []guardSite
 	for _, fn := range allModFuncs(p) {
-		if pkgOfFunc(fn) != pkg || fn.Synthetic != "" {
+		if pkgOfFunc(fn) != pkg || fn.Synthetic != "" || isNewHelper(rootOf(fn)) {
 			continue
 		}
 		for _, gs := range guardSitesOf(p, fn) {
@@ -518,7 +569,7 @@ func ruleOrderingAudited(p *Prog, r *Report, rule, prop string, pkgs map[string]
 func emitSites(p *Prog, pkg string, emitters map[string]bool) []guardSite {
 	var out []guardSite
 	for _, fn := range allModFuncs(p) {
-		if pkgOfFunc(fn) != pkg || fn.Synthetic != "" {
+		if pkgOfFunc(fn) != pkg || fn.Synthetic != "" || isNewHelper(rootOf(fn)) {
 			continue
 		}
 		for _, gs := range guardSitesOf(p, fn) {
@@ -593,4 +644,35 @@ func init() {
 			}
 		}
 	}
+}
+
+// ruleAppendDiscipline: in the planner file of a package every append lies at an audited
+// function (rows of kind `append`; their conditions are compared by the guard-table rule).
+func ruleAppendDiscipline(p *Prog, r *Report, rule, pkg, file string, floor int) {
+	r.rule(rule, "Emission discipline ("+pkg+"): the planner builds its list of commands / requests with append; every append in "+pkg+"/"+file+" lies in a function whose append sites are audited rows of tables/guards.tsv (conditions compared by R-G): what is written, deleted or moved under which conditions.")
+	have := map[string]bool{}
+	for _, row := range readTable("guards.tsv", 5) {
+		have[row[0]+"|"+row[1]] = true
+	}
+	n := 0
+	seen := map[string]bool{}
+	for _, fn := range allModFuncs(p) {
+		if pkgOfFunc(fn) != pkg || fn.Synthetic != "" || isNewHelper(rootOf(fn)) || !strings.HasSuffix(p.Fset.Position(fn.Pos()).Filename, "/"+file) {
+			continue
+		}
+		for _, gs := range guardSitesOf(p, fn) {
+			if gs.Name != "append" {
+				continue
+			}
+			n++
+			k := fnDisplay(fn) + "|append"
+			if seen[k] {
+				continue
+			}
+			seen[k] = true
+			r.add(rule, "append-audited|"+fnDisplay(fn), p.ipos(gs.In), "the appends of "+fnDisplay(fn)+" are audited", have[k],
+				"a list is extended at a place whose conditions were never audited (a new command, or a command under new conditions)")
+		}
+	}
+	r.floor(rule, "appends in "+pkg+"/"+file, n, floor)
 }
